@@ -3,7 +3,11 @@
 Static theorems: coq/theories/Props/C12.v (model coq/theories/Model/Optim.v).
 Per run:
   (0) descriptor obligations: the pre/post-processing of each scipy wrapper and the three repaired/unrepaired lines are
-      re-read from the current source (python ast) and compared with the configuration table of the model;
+      re-read from the current source (python ast) and compared with the configuration table of the model; every
+      conditional test of the modelled functions (the `is None` / `is not None` tests on fixed values, bound entries and
+      whole lists in particular) is re-read in a canonical form and compared with the tests of the model (fail-closed);
+  (0') _project_params_down / _project_params_up on their own: exact correspondence with the model and the two inverse
+      identities on the real code, over every Python spelling of a value fixed at zero, every position, every container;
   (1) scripted correspondence: nlopt.opt / scipy.optimize.* replaced by stubs that play a generated list of proposals;
       the same script runs through the Coq model over Q (closed-form quadratic likelihoods on both sides); returned
       vector, reported value, evaluation trace, and the bounds/start handed to the optimiser must agree;
@@ -11,6 +15,10 @@ Per run:
       and real nlopt / scipy optimisers on closed-form Spectrum-valued models (every model evaluation logged, the
       returned point re-evaluated);
   (3) Misc.perturb_params with numpy.random.uniform replaced by given draws: model correspondence + "stays in bounds".
+In (1) and (2) a systematic block of edge patterns runs for every wrapper on every run: parameters fixed at exactly zero
+(before, between, after the free ones; several; all), negative and at-a-bound fixed values, bound entries equal to zero,
+arguments as list / tuple / numpy array.  In the model "fixed at 0" is [Some 0] and "no bound" is [None]: truthiness has no
+counterpart there, and the theorems (C12_up_down_inverse, C12_down_up_inverse, ...) are stated for every [Some v].
 """
 import ast, itertools, json, math, os, re
 from fractions import Fraction
@@ -166,7 +174,191 @@ def descriptor_obligations(ctx):
         ctx.obligation('_object_func: both bound tests precede the model call, NaN guard follows it', ok, 'translator', repr(order))
     except Exception as e:
         ctx.obligation('_object_func structure readable', False, 'translator', repr(e))
+    condition_obligations(ctx)
     return found
+
+# ---- every conditional test of the glue, in canonical form ----------------------------------------------------------
+# The model distinguishes "absent" (Python's None: `option`) from every number, 0 included: a parameter fixed at 0 is
+# [Some 0], a bound of 0 is [Some 0].  The source must therefore test `is None` / `is not None`, never truthiness.  The
+# tests of every function the model covers are re-read on each run and compared with the list below (fail-closed: a test
+# that is added, dropped, reordered, or rewritten -- `if not fixed_val`, `if bound and ...`, `x or default` -- fails the
+# obligation).  Loop and comprehension variables are written as what they range over (EL<fixed_params> is "an entry of
+# fixed_params", IDX<..> its index), so that a loop and the equivalent comprehension read the same and a test applied to
+# an entry of the wrong list does not.
+
+class _Subst(ast.NodeTransformer):
+    def __init__(self, env):
+        self.env = env
+    def visit_Name(self, node):
+        if node.id in self.env:
+            return ast.copy_location(ast.Name(id=self.env[node.id], ctx=ast.Load()), node)
+        return node
+
+def _canon(expr, env):
+    e = ast.parse(ast.unparse(expr), mode='eval').body
+    return ast.unparse(_Subst(env).visit(e)).replace(' ', '')
+
+def _bind(target, it, env_new, env_old):
+    if isinstance(target, ast.Name):
+        env_new[target.id] = 'EL<%s>' % _canon(it, env_old)
+        return
+    if isinstance(target, (ast.Tuple, ast.List)) and isinstance(it, ast.Call) and not it.keywords:
+        f = _src(it.func)
+        if f == 'zip' and len(it.args) == len(target.elts):
+            for t, a in zip(target.elts, it.args):
+                _bind(t, a, env_new, env_old)
+            return
+        if f == 'enumerate' and len(it.args) == 1 and len(target.elts) == 2 and isinstance(target.elts[0], ast.Name):
+            env_new[target.elts[0].id] = 'IDX<%s>' % _canon(it.args[0], env_old)
+            _bind(target.elts[1], it.args[0], env_new, env_old)
+            return
+    if isinstance(target, (ast.Tuple, ast.List)):
+        def leaves(t, path):
+            if isinstance(t, ast.Name):
+                env_new[t.id] = 'EL<%s>%s' % (_canon(it, env_old), path)
+            elif isinstance(t, (ast.Tuple, ast.List)):
+                for k, u in enumerate(t.elts):
+                    leaves(u, path + '.%d' % k)
+            else:
+                raise ValueError('loop target %s not understood' % _src(target))
+        leaves(target, '')
+        return
+    raise ValueError('loop target %s over %s not understood' % (_src(target), _src(it)))
+
+def cond_tests(fn_node):
+    """the tests of all if / while / assert statements, conditional expressions and comprehension filters of a function,
+    and every and/or/not expression used as a value, in source order"""
+    out = []
+    def expr(e, env, in_test=False):
+        if e is None:
+            return
+        if isinstance(e, ast.IfExp):
+            out.append(_canon(e.test, env))
+            expr(e.test, env, True); expr(e.body, env); expr(e.orelse, env)
+        elif isinstance(e, (ast.ListComp, ast.SetComp, ast.GeneratorExp, ast.DictComp)):
+            env2 = dict(env)
+            for g in e.generators:
+                expr(g.iter, env2)
+                _bind(g.target, g.iter, env2, dict(env2))
+                for c in g.ifs:
+                    out.append(_canon(c, env2))
+                    expr(c, env2, True)
+            if isinstance(e, ast.DictComp):
+                expr(e.key, env2); expr(e.value, env2)
+            else:
+                expr(e.elt, env2)
+        elif isinstance(e, ast.BoolOp) or (isinstance(e, ast.UnaryOp) and isinstance(e.op, ast.Not)):
+            if not in_test:
+                out.append(_canon(e, env))
+            for ch in ast.iter_child_nodes(e):
+                if isinstance(ch, ast.expr):
+                    expr(ch, env, True)
+        elif isinstance(e, ast.Lambda):
+            expr(e.body, env)
+        else:
+            for ch in ast.iter_child_nodes(e):
+                if isinstance(ch, ast.expr):
+                    expr(ch, env, in_test)
+                elif isinstance(ch, ast.keyword):
+                    expr(ch.value, env, in_test)
+    def stmt(s, env):
+        if isinstance(s, (ast.For, ast.AsyncFor)):
+            expr(s.iter, env)
+            env2 = dict(env)
+            _bind(s.target, s.iter, env2, env)
+            for bb in s.body:
+                stmt(bb, env2)
+            for bb in s.orelse:
+                stmt(bb, env)
+        elif isinstance(s, (ast.If, ast.While)):
+            out.append(_canon(s.test, env))
+            expr(s.test, env, True)
+            for bb in s.body + s.orelse:
+                stmt(bb, env)
+        elif isinstance(s, ast.Assert):
+            out.append(_canon(s.test, env))
+            expr(s.test, env, True)
+        else:
+            for _, val in ast.iter_fields(s):
+                for v in (val if isinstance(val, list) else [val]):
+                    if isinstance(v, ast.stmt):
+                        stmt(v, env)
+                    elif isinstance(v, ast.expr):
+                        expr(v, env)
+                    elif isinstance(v, ast.excepthandler):
+                        for bb in v.body:
+                            stmt(bb, env)
+                    elif isinstance(v, ast.withitem):
+                        expr(v.context_expr, env)
+                    elif isinstance(v, ast.keyword):
+                        expr(v.value, env)
+                    elif isinstance(v, ast.match_case if hasattr(ast, 'match_case') else ()):
+                        raise ValueError('match statement not understood')
+    for s in fn_node.body:
+        stmt(s, {})
+    return out
+
+_OUT = ['output_file', 'output_file', 'notfull_output']
+_LOGB = ['EL<%s>isNone', 'EL<%s>isnotNoneandnumpy.isnan(EL<%s>)']
+# function -> accepted lists of tests: the current code first, then forms of the original snapshot (whose defects the
+# correspondence variants and the property clauses report)
+COND_TESTS = {
+    ('Inference', '_project_params_down'): [['fixed_paramsisNone', 'len(pin)!=len(fixed_params)', 'EL<fixed_params>isNone']],
+    ('Inference', '_project_params_up'): [['fixed_paramsisNone', 'numpy.isscalar(pin)', 'EL<fixed_params>isNone']],
+    ('Inference', '_object_func'): [['lower_boundisnotNone', 'EL<lower_bound>isnotNoneandEL<params_up><EL<lower_bound>',
+                                     'upper_boundisnotNone', 'EL<upper_bound>isnotNoneandEL<params_up>>EL<upper_bound>',
+                                     'multinom', 'store_thetas', 'numpy.isnan(result)', 'verbose>0and_counter%verbose==0']],
+    ('Inference', '_object_func_log'): [[]],
+    ('Inference', 'optimize'): [_OUT],
+    ('Inference', 'optimize_log'): [_OUT],
+    ('Inference', 'optimize_log_fmin'): [_OUT],
+    ('Inference', 'optimize_log_powell'): [_OUT],
+    ('Inference', 'optimize_lbfgsb'): [['output_file', 'lower_boundisNone', 'upper_boundisNone', 'output_file', 'notfull_output']],
+    ('Inference', 'optimize_log_lbfgsb'): [
+        ['output_file', 'lower_boundisNone'] + [t.replace('%s', 'lower_bound') for t in _LOGB]
+        + ['upper_boundisNone'] + [t.replace('%s', 'upper_bound') for t in _LOGB] + ['output_file', 'notfull_output'],
+        ['output_file', 'lower_boundisNone', 'upper_boundisNone', 'output_file', 'notfull_output']],
+    ('Inference', 'optimize_cons'): [
+        ['output_file', 'lower_boundisNone', 'upper_boundisNone', 'lower_boundisnotNoneandupper_boundisnotNone', 'maxiterisNone', 'output_file', 'notfull_output'],
+        ['output_file', 'lower_boundisNone', 'upper_boundisNone', 'lower_boundisnotNoneandupper_boundisnotNone', 'output_file', 'notfull_output']],
+    ('Inference', 'optimize_grid'): [['output_file', 'full_output', 'full_output', 'output_file', 'notfull_output']],
+    ('NLopt_mod', 'opt'): [
+        ['lower_boundisNone', 'upper_boundisNone', 'EL<lower_bound>isnotNone', 'EL<upper_bound>isnotNone', 'log_opt', 'EL<lower_bound>>0',
+         'grad.size', 'log_opt', 'log_opt', 'log_opt'],
+        ['lower_boundisNone', 'upper_boundisNone', 'EL<lower_bound>isnotNone', 'EL<upper_bound>isnotNone', 'log_opt',
+         'grad.size', 'log_opt', 'log_opt', 'log_opt']],
+    ('Misc', 'perturb_params'): [['lower_boundisnotNone', 'EL<lower_bound>isNone', 'upper_boundisnotNone', 'EL<upper_bound>isNone']],
+}
+
+def condition_obligations(ctx):
+    for mod, path in (('Inference', INFERENCE), ('NLopt_mod', NLOPT_MOD), ('Misc', MISC)):
+        try:
+            tree = ast.parse(open(path).read())
+            fns = {}
+            for n in tree.body:
+                if isinstance(n, ast.FunctionDef):
+                    fns.setdefault(n.name, []).append(n)
+        except (OSError, SyntaxError) as e:
+            ctx.obligation('parse dadi/%s.py' % mod, False, 'translator', repr(e))
+            continue
+        for (m, name), accepted in COND_TESTS.items():
+            if m != mod:
+                continue
+            what = 'conditional tests of %s.%s are the None / bound tests of the model' % (mod, name)
+            if len(fns.get(name, [])) != 1:
+                ctx.obligation(what, False, 'translator', '%d definitions of %s' % (len(fns.get(name, [])), name))
+                continue
+            try:
+                got = cond_tests(fns[name][0])
+            except Exception as e:
+                ctx.obligation(what, False, 'translator', 'not readable: %r' % (e,))
+                continue
+            ok = got in accepted
+            detail = ''
+            if not ok:
+                exp = accepted[0]
+                detail = 'source has %r; the model has %r' % ([t for t in got if t not in exp] or got, [t for t in exp if t not in got] or exp)
+            ctx.obligation(what, ok, 'translator', detail)
 
 # ------------------------------------------------------------------------------------------------
 # Coq literals
@@ -287,6 +479,93 @@ def gen_ll(rng, lower, upper, nan_ok):
 def away(x, bnds, rel=1e-6):
     return all(bd is None or abs(x - bd) > rel * max(1.0, abs(bd)) for bd in bnds)
 
+# ---- edge values of fixed parameters and bounds -----------------------------------------------------------------------
+# Python's None is "absent"; every number is a value -- 0 in particular (no selection, no migration), whatever its Python
+# type.  The patterns below are drawn SYSTEMATICALLY (every run, every wrapper): a parameter fixed at exactly zero in leading,
+# middle and trailing position relative to the free ones, several at once, everything fixed; negative fixed values; fixed
+# values equal to a bound; bound entries equal to zero; fixed_params / bounds as list, tuple and numpy array.
+ZKINDS = ['int', 'float', 'npfloat', 'npint', 'negzero', 'bool']       # 0, 0.0, numpy.float64(0), numpy.int64(0), -0.0, False
+CONTAINERS = ['list', 'tuple', 'array']
+Z, NEG, ATLO, ATHI = 'zero', 'neg', 'at_lower', 'at_upper'
+
+def edge_patterns(n, all_fixed=True, logspace=False):
+    """list of edge specs for an n-vector: {'fix': {position: what}, 'lo0': [free positions with lower bound 0],
+    'hi0': [free positions with upper bound 0]}"""
+    if n == 1:
+        out = ([{'fix': {0: Z}}] if all_fixed else []) + [{'fix': {}, 'lo0': [0]}]
+    elif n == 2:
+        out = [{'fix': {0: Z}}, {'fix': {1: Z}, 'lo0': [0]}]
+    elif n == 3:
+        out = [{'fix': {0: Z}}, {'fix': {1: Z}}, {'fix': {2: Z}},                      # leading, middle, trailing
+               {'fix': {0: Z, 2: Z}}, {'fix': {0: NEG, 1: Z}}, {'fix': {0: ATLO, 2: ATHI}}]
+        if all_fixed:
+            out.append({'fix': {0: Z, 1: NEG, 2: Z}})
+        out += [{'fix': {}, 'lo0': [0]}, {'fix': {1: Z}, 'lo0': [2], 'hi0': [0]}]
+        if not logspace:                               # (no positive parameter below an upper bound of 0)
+            out.append({'fix': {}, 'hi0': [1]})
+    else:
+        out = [{'fix': {0: Z}}, {'fix': {n - 1: Z}}, {'fix': {1: Z, n - 1: Z}}, {'fix': {0: NEG, 2: Z}},
+               {'fix': {1: Z}, 'lo0': [2], 'hi0': [0]}]
+    return out
+
+class Rot:
+    """deterministic rotation through the Python types / containers (one counter per list), so that each occurs on every run"""
+    def __init__(self, start=0):
+        self.start = start
+        self.k = {}
+    def count(self, name):
+        k = self.k.get(name, self.start)
+        self.k[name] = k + 1
+        return k
+    def next(self, seq):
+        return seq[self.count(tuple(seq)) % len(seq)]
+
+def apply_edge(rng, rot, n, lower, upper, edge, logspace):
+    """rewrites the box for the edge spec; returns the case fields fixed / kinds / containers"""
+    fixed = [None] * n
+    fkinds = [None] * n
+    lkinds = [None] * n
+    ukinds = [None] * n
+    for i in edge.get('lo0', []):
+        lower[i] = 0.0
+        if upper[i] <= 0:
+            upper[i] = rng.choice([1.0, 2.0, 4.0])
+        lkinds[i] = rot.next(['int', 'float', 'npfloat', 'negzero'])
+    for i in edge.get('hi0', []):
+        if logspace:
+            continue                                   # no positive parameter below an upper bound of 0
+        upper[i] = 0.0
+        lower[i] = -rng.choice([1.0, 2.0, 4.0])
+        ukinds[i] = rot.next(['int', 'float', 'npfloat', 'negzero'])
+    for i, what in sorted(edge['fix'].items()):
+        if what == Z:
+            fixed[i] = 0.0
+            fkinds[i] = rot.next(ZKINDS)
+            lower[i] = rot.next([0.0, -0.5, -2.0])     # a box that contains 0 (sometimes with 0 as its lower end)
+            upper[i] = rng.choice([1.0, 2.0, 4.0])
+            if lower[i] == 0.0:
+                lkinds[i] = rot.next(['int', 'float'])
+        elif what == NEG:
+            fixed[i] = -rng.choice([0.5, 1.25, 3.0])
+            fkinds[i] = rot.next(['float', 'npfloat'])
+            lower[i] = fixed[i] - rng.choice([0.5, 1.0])
+            upper[i] = fixed[i] + rng.choice([0.25, 2.0, 5.0])
+        elif what == ATLO:
+            fixed[i] = lower[i]
+            fkinds[i] = rot.next(['float', 'npfloat'])
+        elif what == ATHI:
+            fixed[i] = upper[i]
+            fkinds[i] = rot.next(['float', 'npfloat'])
+        else:
+            raise ValueError(what)
+    k = rot.count('case')                              # all nine pairs of containers come round
+    return {'fixed': fixed, 'fixed_kinds': fkinds, 'lower_kinds': lkinds, 'upper_kinds': ukinds,
+            'fixed_container': CONTAINERS[k % 3], 'bound_container': CONTAINERS[(k // 3 + k) % 3]}
+
+def edge_tag(edge):
+    return ','.join('%d:%s' % (i, w) for i, w in sorted(edge['fix'].items())) + \
+        ('|lo0=%s' % edge['lo0'] if edge.get('lo0') else '') + ('|hi0=%s' % edge['hi0'] if edge.get('hi0') else '')
+
 def gen_scripted(ctx):
     rng = ctx.rng
     cases = []
@@ -302,14 +581,28 @@ def gen_scripted(ctx):
                     c = gen_one_scripted(rng, fn, log_opt, n, pat)
                     c['id'] = len(cases)
                     cases.append(c)
+    # the systematic edge block: every wrapper x every edge pattern, on every run
+    rot = Rot(ctx.seed)
+    for fn, log_opt in fns:
+        for n in ([1, 2, 3] if ctx.quick else [1, 2, 3, 4]):
+            for rep in range(ctx.pick(1, 3)):
+                for edge in edge_patterns(n, all_fixed=(fn != 'optimize_grid'), logspace=(log_opt if fn == 'opt' else LOG_SPACE.get(fn, False))):
+                    c = gen_one_scripted(rng, fn, log_opt, n, None, edge=edge, rot=rot)
+                    c['id'] = len(cases)
+                    cases.append(c)
     return cases
 
-def gen_one_scripted(rng, fn, log_opt, n, pat):
+def gen_one_scripted(rng, fn, log_opt, n, pat, edge=None, rot=None):
     logspace = log_opt if fn == 'opt' else LOG_SPACE.get(fn, False)
     positive = logspace or fn in NEEDS_POSITIVE or (rng.random() < 0.4)
     lower, upper = gen_box(rng, n, positive)
     fixed = None
-    if pat is not None:
+    extra = {}
+    if edge is not None:
+        extra = apply_edge(rng, rot, n, lower, upper, edge, logspace)
+        fixed = extra.pop('fixed')
+        extra['edge'] = edge_tag(edge)
+    elif pat is not None:
         fixed = [None] * n
         for i in pat:
             fixed[i] = inside(rng, lower[i], upper[i])
@@ -318,13 +611,14 @@ def gen_one_scripted(rng, fn, log_opt, n, pat):
     c = {'fn': fn, 'log_opt': log_opt, 'n': n, 'p0': p0, 'fixed': fixed, 'multinom': rng.random() < 0.5,
          'll_scale': rng.choice([1, 1, 2, 0.5, 4]), 'maxiter': 50 if fn == 'optimize_cons' else None,
          'full_output': rng.random() < 0.85, 'ret': None}
+    c.update(extra)
     if fn == 'opt':
         c['full_output'] = True
-    c['llm'] = gen_ll(rng, lower, upper, True)
-    c['llp'] = gen_ll(rng, lower, upper, True)
+    c['llm'] = gen_ll(rng, lower, upper, edge is None)
+    c['llp'] = gen_ll(rng, lower, upper, edge is None)
     # user-visible bounds: entries / whole lists may be None
     ulo, uhi = list(lower), list(upper)
-    style = rng.random()
+    style = rng.random() if edge is None else 1.0
     if fn == 'optimize_grid':
         ulo = uhi = None
     elif style < 0.12:
@@ -337,7 +631,7 @@ def gen_one_scripted(rng, fn, log_opt, n, pat):
             uhi[rng.randrange(n)] = None
     elif style < 0.43 and fn == 'optimize_log_lbfgsb':
         ulo[rng.randrange(n)] = None                    # documented, but numpy.log raises: both worlds must agree on that
-    if (fn == 'opt' and log_opt or fn == 'optimize_log_lbfgsb') and ulo is not None and rng.random() < 0.25:
+    if edge is None and (fn == 'opt' and log_opt or fn == 'optimize_log_lbfgsb') and ulo is not None and rng.random() < 0.25:
         ulo[rng.randrange(n)] = rng.choice([0.0, -1.0])  # log -> -inf / nan, exactly as written
     c['lower'], c['upper'] = ulo, uhi
     nanthr = [c['llm'].get('nan'), c['llp'].get('nan')]
@@ -357,11 +651,13 @@ def gen_one_scripted(rng, fn, log_opt, n, pat):
         c['p0'] = None
         return c
     # proposals, in the optimiser's coordinates
-    nprop = rng.randint(2, 7)
+    nprop = rng.randint(2, 7) if edge is None else rng.randint(2, 3)     # (edge cases are about the vectors, not long traces)
     oracle_bounded = fn in ORACLE_BOUNDED
     honour = oracle_bounded or rng.random() < 0.4        # stay inside the box (oracle contract) or roam freely
     if oracle_bounded and rng.random() < 0.1:
         honour = False                                   # a misbehaving optimiser: the wrapper must pass it through all the same
+    if edge is not None and not oracle_bounded and (edge.get('lo0') or edge.get('hi0')):
+        honour = False                                   # the bound test of _object_func against a bound of 0 needs points beyond it
     props = []
     for _ in range(nprop):
         for attempt in range(50):
@@ -373,7 +669,7 @@ def gen_one_scripted(rng, fn, log_opt, n, pat):
                 else:
                     v = lower[i] + w * rng.randint(-12, 44) / 32.0
                 if logspace and v <= 0:
-                    v = lower[i] / 2.0
+                    v = lower[i] / 2.0 if lower[i] > 0 else w / 64.0
                 x.append(v)
             full = list(p0)
             for j, i in enumerate(free):
@@ -389,6 +685,14 @@ def gen_one_scripted(rng, fn, log_opt, n, pat):
             if ok:
                 break
         props.append([math.log(v) for v in x] if logspace else x)
+    if edge is not None and not logspace and not oracle_bounded:
+        # one proposal just beyond each bound that is 0, all other coordinates inside the box: the bound test of that very
+        # entry decides whether the model is evaluated
+        for i, sign in [(i, -1.0) for i in edge.get('lo0', [])] + [(i, 1.0) for i in edge.get('hi0', [])]:
+            if i in free:
+                x = [inside(rng, lower[j], upper[j]) for j in free]
+                x[free.index(i)] = sign * (upper[i] - lower[i]) * rng.randint(1, 12) / 32.0
+                props.append(x)
     c['props'] = props
     c['honours_contract'] = bool(honour)
     if rng.random() < 0.12:
@@ -401,7 +705,7 @@ def gen_one_scripted(rng, fn, log_opt, n, pat):
                 p0[i] = p0[i] * 1.03125
     return c
 
-def gen_model(rng, n, lower, upper):
+def gen_model(rng, n, lower, upper, press=None):
     m = rng.randint(6, 9)
     base = [0.0] + [float(rng.randint(16, 48)) * 8 for _ in range(m - 2)] + [0.0]
     cs = [inside(rng, lower[i], upper[i]) for i in range(n)]
@@ -410,6 +714,8 @@ def gen_model(rng, n, lower, upper):
         quad[k][1 + k % (m - 2)] = 0.375
     lin = [[0.0] * m for _ in range(n)]
     truth = [inside(rng, lower[i], upper[i]) for i in range(n)]
+    for i, v in (press or {}).items():      # the data's parameter lies beyond a bound: the optimiser presses against it
+        truth[i] = v
     spec = {'base': base, 'quad': quad, 'lin': lin, 'cs': cs}
     data = list(base)
     for k in range(n):
@@ -420,12 +726,80 @@ def gen_model(rng, n, lower, upper):
     spec['truth'] = truth
     return spec
 
+def real_variants():
+    return [('opt', False, a) for a in LOCAL_NLOPT] + [('opt', True, a) for a in LOCAL_NLOPT[:2]] \
+        + [('opt', False, a) for a in GLOBAL_NLOPT] + [('opt', True, GLOBAL_NLOPT[0])] \
+        + [(f, False, None) for f in SCIPY_FNS] + [('optimize_grid', False, None)]
+
+def gen_one_real(rng, fn, log_opt, alg, n, pat, edge=None, rot=None):
+    logspace = log_opt if fn == 'opt' else LOG_SPACE.get(fn, False)
+    positive = logspace or fn in NEEDS_POSITIVE or rng.random() < 0.6
+    lower, upper = [], []
+    for i in range(n):
+        if positive:
+            lo = rng.choice([0.25, 0.5, 1.0]); hi = lo * rng.choice([4, 8])
+        else:
+            lo = lib.dyadic(rng, -3, -0.5, 2); hi = lo + rng.choice([2.0, 3.0, 4.0])
+        lower.append(lo); upper.append(hi)
+    fixed = None
+    extra = {}
+    press = {}
+    if edge is not None:
+        extra = apply_edge(rng, rot, n, lower, upper, edge, logspace)
+        fixed = extra.pop('fixed')
+        extra['edge'] = edge_tag(edge)
+        if edge.get('press'):
+            # the optimum of the unconstrained problem lies beyond the bound that is 0
+            for i in edge.get('lo0', []):
+                press[i] = -1.0
+            for i in edge.get('hi0', []):
+                if not logspace:
+                    press[i] = 1.0
+    elif pat is not None:
+        fixed = [None] * n
+        for i in pat:
+            fixed[i] = inside(rng, lower[i], upper[i])
+    c = {'fn': fn, 'log_opt': log_opt, 'algorithm': alg, 'n': n,
+         'p0': [inside(rng, lower[i], upper[i]) for i in range(n)], 'fixed': fixed,
+         'lower': list(lower), 'upper': list(upper), 'multinom': rng.random() < 0.5,
+         'll_scale': rng.choice([1, 1, 2, 0.5]), 'full_output': True,
+         'model': gen_model(rng, n, lower, upper, press), 'seed': rng.randint(1, 10 ** 6),
+         'box': [list(lower), list(upper)]}
+    c.update(extra)
+    if fn == 'opt':
+        c['maxeval'] = 150 if alg in GLOBAL_NLOPT else 400
+        if alg in GLOBAL_NLOPT:
+            c['global'] = True
+    elif fn == 'optimize_cons':
+        c['maxiter'] = 40
+    elif fn in ('optimize', 'optimize_log'):
+        c['maxiter'] = 25
+    elif fn in ('optimize_lbfgsb', 'optimize_log_lbfgsb'):
+        c['maxiter'] = 400
+    elif fn in ('optimize_log_fmin', 'optimize_log_powell'):
+        c['maxiter'] = 60 if fn.endswith('fmin') else 6
+    if fn == 'optimize_grid':
+        free = [i for i in range(n) if fixed is None or fixed[i] is None]
+        c['grid'] = []
+        for i in free:
+            npts = 3 if len(free) >= 3 else rng.choice([3, 4, 5])
+            step = (upper[i] - lower[i]) / (npts + 1)
+            c['grid'].append([lower[i] + step / 2, upper[i], step])
+        c['p0'] = None; c['lower'] = None; c['upper'] = None
+    elif edge is None and fn in ('opt', 'optimize_cons', 'optimize_lbfgsb', 'optimize') and rng.random() < 0.25 and alg not in GLOBAL_NLOPT:
+        # None entries / whole-list None where the wrapper documents them
+        if fn == 'opt' and log_opt:
+            pass                      # an absent lower bound in log space is the subject of a probe
+        elif rng.random() < 0.5:
+            c['upper'] = None
+        else:
+            c['lower'][rng.randrange(n)] = None
+    return c
+
 def gen_real(ctx):
     rng = ctx.rng
     cases = []
-    variants = [('opt', False, a) for a in LOCAL_NLOPT] + [('opt', True, a) for a in LOCAL_NLOPT[:2]] \
-        + [('opt', False, a) for a in GLOBAL_NLOPT] + [('opt', True, GLOBAL_NLOPT[0])] \
-        + [(f, False, None) for f in SCIPY_FNS] + [('optimize_grid', False, None)]
+    variants = real_variants()
     ns = [1, 2, 3] if ctx.quick else [1, 2, 3, 4]
     reps = ctx.pick(1, 3)
     for fn, log_opt, alg in variants:
@@ -437,55 +811,31 @@ def gen_real(ctx):
                 pats = pats[:2]
             for rep in range(reps):
                 for pat in pats:
-                    logspace = log_opt if fn == 'opt' else LOG_SPACE.get(fn, False)
-                    positive = logspace or fn in NEEDS_POSITIVE or rng.random() < 0.6
-                    lower, upper = [], []
-                    for i in range(n):
-                        if positive:
-                            lo = rng.choice([0.25, 0.5, 1.0]); hi = lo * rng.choice([4, 8])
-                        else:
-                            lo = lib.dyadic(rng, -3, -0.5, 2); hi = lo + rng.choice([2.0, 3.0, 4.0])
-                        lower.append(lo); upper.append(hi)
-                    fixed = None
-                    if pat is not None:
-                        fixed = [None] * n
-                        for i in pat:
-                            fixed[i] = inside(rng, lower[i], upper[i])
-                    c = {'id': len(cases), 'fn': fn, 'log_opt': log_opt, 'algorithm': alg, 'n': n,
-                         'p0': [inside(rng, lower[i], upper[i]) for i in range(n)], 'fixed': fixed,
-                         'lower': list(lower), 'upper': list(upper), 'multinom': rng.random() < 0.5,
-                         'll_scale': rng.choice([1, 1, 2, 0.5]), 'full_output': True,
-                         'model': gen_model(rng, n, lower, upper), 'seed': rng.randint(1, 10 ** 6),
-                         'box': [list(lower), list(upper)]}
-                    if fn == 'opt':
-                        c['maxeval'] = 150 if alg in GLOBAL_NLOPT else 400
-                        if alg in GLOBAL_NLOPT:
-                            c['global'] = True
-                    elif fn == 'optimize_cons':
-                        c['maxiter'] = 40
-                    elif fn in ('optimize', 'optimize_log'):
-                        c['maxiter'] = 25
-                    elif fn in ('optimize_lbfgsb', 'optimize_log_lbfgsb'):
-                        c['maxiter'] = 400
-                    elif fn in ('optimize_log_fmin', 'optimize_log_powell'):
-                        c['maxiter'] = 60 if fn.endswith('fmin') else 6
-                    if fn == 'optimize_grid':
-                        free = [i for i in range(n) if fixed is None or fixed[i] is None]
-                        c['grid'] = []
-                        for i in free:
-                            npts = 3 if len(free) >= 3 else rng.choice([3, 4, 5])
-                            step = (upper[i] - lower[i]) / (npts + 1)
-                            c['grid'].append([lower[i] + step / 2, upper[i], step])
-                        c['p0'] = None; c['lower'] = None; c['upper'] = None
-                    elif fn in ('opt', 'optimize_cons', 'optimize_lbfgsb', 'optimize') and rng.random() < 0.25 and alg not in GLOBAL_NLOPT:
-                        # None entries / whole-list None where the wrapper documents them
-                        if fn == 'opt' and log_opt:
-                            pass                      # an absent lower bound in log space is the subject of a probe
-                        elif rng.random() < 0.5:
-                            c['upper'] = None
-                        else:
-                            c['lower'][rng.randrange(n)] = None
+                    c = gen_one_real(rng, fn, log_opt, alg, n, pat)
+                    c['id'] = len(cases)
                     cases.append(c)
+    # the systematic edge block (every optimiser, every run): a parameter fixed at exactly zero before, between and after
+    # the free ones; negative / at-a-bound fixed values; and, for the optimisers that are handed the box, a bound of 0 with
+    # the data's parameter beyond it
+    rot = Rot(ctx.seed + 1)
+    for fn, log_opt, alg in variants:
+        edges = [(3, {'fix': {0: Z}}), (3, {'fix': {1: Z}}), (3, {'fix': {2: Z}}), (2, {'fix': {0: Z}}),
+                 (3, {'fix': {0: NEG, 2: ATHI}}), (3, {'fix': {0: Z, 1: Z}})]
+        if not ctx.quick:
+            edges += [(4, {'fix': {1: Z, 3: Z}}), (4, {'fix': {0: Z}}), (3, {'fix': {0: ATLO, 1: Z}}), (2, {'fix': {1: Z}})]
+        if fn == 'opt' and not log_opt:
+            edges += [(3, {'fix': {1: Z}, 'lo0': [2], 'press': True}), (2, {'fix': {}, 'hi0': [1], 'press': True}),
+                      (2, {'fix': {0: Z}, 'lo0': [1], 'hi0': [], 'press': True})]
+        elif fn in ('optimize_lbfgsb', 'optimize_cons'):
+            edges += [(3, {'fix': {1: Z}, 'lo0': [2], 'press': True}), (2, {'fix': {}, 'hi0': [1], 'press': True})]
+        elif fn != 'optimize_grid' and alg not in GLOBAL_NLOPT:
+            # (a global search in log(params) above a lower bound of 0 is a search over an unbounded box: nlopt refuses it)
+            edges += [(2, {'fix': {}, 'lo0': [0]})]
+        for rep in range(ctx.pick(1, 2)):
+            for n, edge in edges:
+                c = gen_one_real(rng, fn, log_opt, alg, n, None, edge=edge, rot=rot)
+                c['id'] = len(cases)
+                cases.append(c)
     return cases
 
 # ------------------------------------------------------------------------------------------------
@@ -497,8 +847,10 @@ def vkey(c, clause):
 def rel_le(a, bnd, tol=1e-9):
     return a <= bnd + tol * max(1.0, abs(bnd))
 
-def clauses(ctx, c, r, ll_at_x, ll_at_p0, mode):
-    """returns list of (clause, message) that fail for one finished optimisation"""
+def clauses(ctx, c, r, ll_at_x, ll_at_p0, mode, only=None):
+    """returns list of (clause, message) that fail for one finished optimisation; with [only] (a set) just the clauses
+    that hold whatever the optimiser does: fixed parameters returned and evaluated unchanged, well-formed points and,
+    with 'bounds' in [only] (wrappers whose objective carries the bounds), no model evaluation outside the bounds"""
     bad = []
     fn = c['fn']; n = c['n']; fixed = c['fixed']
     x = r['x']
@@ -517,6 +869,23 @@ def clauses(ctx, c, r, ll_at_x, ll_at_p0, mode):
         if i not in free and x[i] != fixed[i]:
             bad.append(('fixed-parameter-changed', 'parameter %d fixed at %r returned as %r' % (i, fixed[i], x[i])))
             break
+    # 1b fixed parameters are handed to the model unchanged at every evaluation
+    for e in r['evals']:
+        if finite(e) and len(e) == n and any(i not in free and e[i] != fixed[i] for i in range(n)):
+            i = [i for i in range(n) if i not in free and e[i] != fixed[i]][0]
+            bad.append(('fixed-parameter-not-held-during-search', 'model evaluated at %r: parameter %d is fixed at %r' % (e, i, fixed[i])))
+            break
+    if only is not None:
+        # the clauses that hold for ANY optimiser, whatever it proposes
+        if 'bounds' in only:
+            for e in r['evals']:
+                if finite(e) and len(e) == n and any(not inb(e[i], i) and (i in free or inb(fixed[i], i)) for i in range(n)):
+                    bad.append(('model-evaluated-out-of-bounds', 'evaluated at %r, bounds %r %r' % (e, lo, hi)))
+                    break
+        for e in r['evals']:
+            if not finite(e) or len(e) != n:
+                bad.append(('model-evaluated-at-malformed-point', repr(e))); break
+        return bad
     # 2 free parameters within bounds
     for i in free:
         if not inb(x[i], i):
@@ -599,6 +968,47 @@ def classify_error(c, err):
 
 # ------------------------------------------------------------------------------------------------
 
+# ------------------------------------------------------------------------------------------------
+# running the driver: a defect in the glue can hand nlopt / scipy vectors of the wrong dimension and kill the interpreter
+# itself (heap corruption, abort).  That must end as a violation with the input, not as a failure of the check.
+
+def run_driver(mode, cases, timeout, budget=None):
+    import subprocess
+    budget = budget if budget is not None else [40]
+    try:
+        return lib.run_impl('c12_impl.py', {'mode': mode, 'cases': cases}, timeout=timeout)
+    except (RuntimeError, subprocess.TimeoutExpired) as e:
+        lines = [l for l in str(e).strip().splitlines() if l.strip()]
+        what = ('InterpreterHang: no answer within %ds' % timeout) if isinstance(e, subprocess.TimeoutExpired) else \
+            'InterpreterCrash: ' + (lines[-1] if lines else repr(e))[:200]
+        if len(cases) == 1 or budget[0] <= 0:
+            return [{'id': c['id'], 'error': what + ('' if len(cases) == 1 else ' (one of a batch of %d cases)' % len(cases)),
+                     'evals': [], 'oracle': {}, 'x': [], 'f': None} for c in cases]
+        budget[0] -= 2
+        h = len(cases) // 2
+        t2 = max(120, timeout // 2)
+        return run_driver(mode, cases[:h], t2, budget) + run_driver(mode, cases[h:], t2, budget)
+
+def typed_repr(vals, kinds, container, force_object=False):
+    """the argument as the Python expression that was handed to the real code"""
+    if vals is None:
+        return 'None'
+    kinds = kinds or [None] * len(vals)
+    def one(v, k):
+        if v is None:
+            return 'None'
+        return {'int': '%d' % v, 'negzero': '-0.0', 'npfloat': 'numpy.float64(%r)' % float(v), 'npint': 'numpy.int64(%d)' % v,
+                'bool': repr(bool(v))}.get(k, repr(float(v)))
+    body = ', '.join(one(v, k) for v, k in zip(vals, kinds))
+    return {'tuple': '(%s%s)' % (body, ',' if len(vals) == 1 else ''),
+            'array': 'numpy.array([%s]%s)' % (body, ', dtype=object' if force_object or any(v is None for v in vals) else '')}.get(container, '[%s]' % body)
+
+def inputs_text(c):
+    return 'fixed_params=%s p0=%r lower_bound=%s upper_bound=%s' % (
+        typed_repr(c.get('fixed'), c.get('fixed_kinds'), c.get('fixed_container'), True), c.get('p0'),
+        typed_repr(c.get('lower'), c.get('lower_kinds'), c.get('bound_container')),
+        typed_repr(c.get('upper'), c.get('upper_kinds'), c.get('bound_container')))
+
 def report(ctx, c, failures, r, mode, seen):
     for clause, msg in failures:
         key = vkey(c, clause)
@@ -606,11 +1016,12 @@ def report(ctx, c, failures, r, mode, seen):
             seen[key] += 1
             continue
         seen[key] = 1
-        ctx.violation('%s%s (%s run): %s' % (c['fn'], ' log_opt=True' if c.get('log_opt') else '', mode, msg),
-                      data={'mode': mode, 'case': c, 'impl': r, 'clause': clause}, key=key)
+        ctx.violation('%s%s%s (%s run) %s: %s' % (c['fn'], ' log_opt=True' if c.get('log_opt') else '', ('/' + c['algorithm']) if c.get('algorithm') else '',
+                                                 mode, inputs_text(c), msg),
+                      data={'mode': mode, 'case': c, 'impl': r, 'clause': clause, 'call': inputs_text(c)}, key=key)
 
 def run_scripted(ctx, cases, seen):
-    res = lib.run_impl('c12_impl.py', {'mode': 'scripted', 'cases': cases}, timeout=900)
+    res = run_driver('scripted', cases, 900)
     byid = {r['id']: r for r in res}
     # platform drift: the stubs validate the call against the installed signature, as the real function would
     redo = []
@@ -624,12 +1035,13 @@ def run_scripted(ctx, cases, seen):
             c2 = dict(c); c2['lenient'] = True
             redo.append(c2)
     if redo:
-        for r in lib.run_impl('c12_impl.py', {'mode': 'scripted', 'cases': redo}, timeout=900):
+        for r in run_driver('scripted', redo, 900):
             byid[r['id']] = r
         for c in cases:
             if any(c['id'] == d['id'] for d in redo):
                 c['lenient'] = True
     exprs, meta = [], {}
+    raised = {}
     for c in cases:
         r = byid[c['id']]
         fn = c['fn']
@@ -646,9 +1058,21 @@ def run_scripted(ctx, cases, seen):
             k = len(exprs)
             exprs.append((k, t)); meta[k] = (c, variant)
         # property clauses on the real code, for scripts that honour the optimiser contract
+        if c.get('edge'):
+            ctx.count('scripted edge ' + c['edge'])
+            ctx.count('scripted fixed_params as ' + str(c.get('fixed_container')))
+            for kd in (c.get('fixed_kinds') or []):
+                if kd:
+                    ctx.count('scripted fixed value type ' + kd)
         if 'error' in r:
             ctx.count('scripted impl raised')
+            raised[c['id']] = r['error']
             continue
+        if finite(r['x']):
+            # whatever the script: fixed parameters are returned and evaluated unchanged, and a wrapper whose objective
+            # carries the bounds never lets the model see a point outside them (C12_never_evaluates_out_of_bounds)
+            always = {'bounds'} if (fn in CFG and CFG[fn][3]) else set()
+            report(ctx, dict(c), clauses(ctx, dict(c), r, None, None, 'scripted', only=always), r, 'scripted', seen)
         if c.get('honours_contract') or fn == 'optimize_grid' and c.get('ret') is None:
             spec = c['llm'] if c['multinom'] else c['llp']
             if not finite(r['x']) or len(r['x']) != c['n']:
@@ -690,9 +1114,14 @@ def run_scripted(ctx, cases, seen):
         ctx.obligation('scripted case %d (%s)' % (c['id'], tag), ok, 'correspondence', '' if ok else 'model != implementation: %r' % (pc,))
         if not ok:
             nbad += 1
-            if nbad <= 3:
-                ctx.violation('the optimiser glue of %s disagrees with the model on a scripted run' % tag,
-                              data={'mode': 'scripted', 'case': c, 'impl': byid[c['id']]}, no_input=True,
+            if c['id'] in raised and 'raises:' + tag not in seen:
+                # the model says this call completes: the real code raising on it is a failing input of the property
+                seen['raises:' + tag] = 1
+                ctx.violation('%s (scripted run) %s raises %s where the model completes' % (tag, inputs_text(c), raised[c['id']]),
+                              data={'mode': 'scripted', 'case': c, 'impl': byid[c['id']], 'call': inputs_text(c)}, key=vkey(c, 'raises-' + raised[c['id']].split(':')[0]))
+            elif nbad <= 3:
+                ctx.violation('the optimiser glue of %s disagrees with the model on a scripted run %s' % (tag, inputs_text(c)),
+                              data={'mode': 'scripted', 'case': c, 'impl': byid[c['id']], 'call': inputs_text(c)}, no_input=True,
                               broken='scripted correspondence %s' % tag)
     for tag, good in tag_variants.items():
         ctx.obligation('all scripted cases of %s agree with one model variant' % tag, bool(good), 'correspondence', repr(good))
@@ -703,7 +1132,7 @@ def run_scripted(ctx, cases, seen):
     return byid
 
 def run_real(ctx, cases, seen):
-    res = lib.run_impl('c12_impl.py', {'mode': 'real', 'cases': cases}, timeout=1500)
+    res = run_driver('real', cases, 1500)
     byid = {r['id']: r for r in res}
     redo = []
     for c in cases:
@@ -716,7 +1145,7 @@ def run_real(ctx, cases, seen):
             c2 = dict(c); c2['lenient'] = True
             redo.append(c2)
     if redo:
-        for r in lib.run_impl('c12_impl.py', {'mode': 'real', 'cases': redo}, timeout=1500):
+        for r in run_driver('real', redo, 1500):
             byid[r['id']] = r
     for c in cases:
         r = byid[c['id']]
@@ -724,6 +1153,8 @@ def run_real(ctx, cases, seen):
         ctx.count('real fn=%s' % tag)
         ctx.count('real nfixed=%d/%d' % (0 if c['fixed'] is None else sum(v is not None for v in c['fixed']), c['n']))
         ctx.count('real multinom=%s' % c['multinom'])
+        if c.get('edge') is not None:
+            ctx.count('real edge ' + c['edge'])
         ctx.case(signature=('r', tag, c['p0'], c['fixed'], c['lower'], c['upper'], c['model']['cs']),
                  sample={'mode': 'real', 'fn': tag, 'p0': c['p0'], 'fixed': c['fixed'], 'lower': c['lower'], 'upper': c['upper'],
                          'impl': {k: r.get(k) for k in ('x', 'f', 'll_at_x', 'error')}, 'evaluations': len(r.get('evals', []))})
@@ -731,7 +1162,8 @@ def run_real(ctx, cases, seen):
             key = vkey(c, 'raises-' + r['error'].split(':')[0])
             if key not in seen:
                 seen[key] = 1
-                ctx.violation('%s raises on a valid call: %s' % (tag, r['error']), data={'mode': 'real', 'case': c, 'impl': r}, key=key)
+                ctx.violation('%s (real run) %s raises on a valid call: %s' % (tag, inputs_text(c), r['error']),
+                              data={'mode': 'real', 'case': c, 'impl': r, 'call': inputs_text(c)}, key=key)
             ctx.obligation('real run %d (%s) completes' % (c['id'], tag), False, 'predicate', r['error'])
             # explained by the violation just recorded
             ctx.obligations[-1]['known_key'] = key
@@ -785,6 +1217,119 @@ def probes(ctx, seen):
             report(ctx, c, fails, r, 'real', seen)
 
 # ------------------------------------------------------------------------------------------------
+# _project_params_down / _project_params_up on their own: model correspondence and the two inverse identities
+
+def gen_project(ctx):
+    rng = ctx.rng
+    cases = []
+    rot = Rot(ctx.seed + 2)
+    def val():
+        return lib.dyadic(rng, -8, 8, 4) if rng.random() < 0.8 else 0.0        # zeros among the free values too
+    def add(fixed, kinds, tag, pin=None, free=None, **kw):
+        n = len(fixed) if fixed is not None else rng.randint(1, 4)
+        nfree = n if fixed is None else sum(v is None for v in fixed)
+        c = {'id': len(cases), 'fixed': fixed, 'fixed_kinds': kinds, 'tag': tag,
+             'fixed_container': CONTAINERS[len(cases) % 3], 'pin_container': CONTAINERS[(len(cases) // 3 + len(cases)) % 3],
+             'pin': pin if pin is not None else [val() for _ in range(n)],
+             'free': free if free is not None else [val() for _ in range(nfree)]}
+        c.update(kw)
+        cases.append(c)
+    # every Python spelling of zero, in leading / middle / trailing position, alone and beside another fixed value
+    for zk in ZKINDS:
+        for pos in range(3):
+            fixed = [None] * 3; kinds = [None] * 3
+            fixed[pos] = 0.0; kinds[pos] = zk
+            add(fixed, kinds, 'zero:%s@%d/3' % (zk, pos))
+        fixed = [0.0, None, lib.dyadic(rng, 0.5, 4, 3), 0.0]; kinds = [zk, None, 'float', zk]
+        add(fixed, kinds, 'zero:%s twice/4' % zk)
+    # every pattern of {free, zero, negative, positive} over 1..3 (thorough: 4) slots: none fixed ... all fixed
+    for n in ([1, 2, 3] if ctx.quick else [1, 2, 3, 4]):
+        for states in itertools.product('FZNP', repeat=n):
+            fixed, kinds = [], []
+            for st in states:
+                if st == 'F':
+                    fixed.append(None); kinds.append(None)
+                elif st == 'Z':
+                    fixed.append(0.0); kinds.append(rot.next(ZKINDS))
+                elif st == 'N':
+                    fixed.append(-rng.choice([0.25, 1.0, 2.5, 7.0])); kinds.append(rot.next(['float', 'npfloat']))
+                else:
+                    v = rng.choice([0.5, 1.0, 3.0, 0.015625]); fixed.append(v); kinds.append(rot.next(['float', 'npfloat', 'int'] if v == int(v) else ['float', 'npfloat']))
+            add(fixed, kinds, ''.join(states))
+    # fixed_params=None; lists of bounds (None entries) going down; wrong length (ValueError); a scalar / a surplus going up
+    for n in (1, 2, 3):
+        add(None, None, 'no fixed_params/%d' % n, pin=[val() for _ in range(n)], free=[val() for _ in range(n)])
+    for fixed, kinds in (([None, 0.0, None], [None, 'int', None]), ([0.0, None, None], ['float', None, None]), ([None, None, 0.0], [None, None, 'npfloat']),
+                         ([None, 1.5, None], None), ([None, None, None], None), ([0.0, 0.0, 0.0], ['int', 'float', 'npint'])):
+        for pin in ([None, 0.0, 0.25], [0.0, None, None], [None, None, None], [0.0, 0.0, 0.0]):
+            add(fixed, kinds, 'bounds list down', pin=pin)
+    for fixed, kinds in (([None, 0.0], [None, 'int']), ([0.0, None], ['float', None]), ([None, None], None), ([2.0, None], None)):
+        add(fixed, kinds, 'wrong length', pin=[val() for _ in range(3)])
+        add(fixed, kinds, 'scalar up', free=[val()], free_scalar=(sum(v is None for v in fixed) == 1))
+        add(fixed, kinds, 'surplus up', free=[val() for _ in range(sum(v is None for v in fixed) + 1)])
+    return cases
+
+def run_project(ctx, cases, seen):
+    res = run_driver('project', cases, 300)
+    exprs = []
+    def ol(xs):
+        return 'None' if xs is None else 'Some ' + ql(xs)
+    for c, r in zip(cases, res):
+        fixed = c['fixed']
+        n = len(c['pin'])
+        nfree = len(c['free']) if fixed is None else sum(v is None for v in fixed)
+        ctx.count('project ' + (c['tag'] if not set(c['tag']) <= set('FZNP') else 'pattern over {F,Z,N,P}'))
+        ctx.count('project fixed_params as ' + str(c['fixed_container'] if fixed is not None else None))
+        ctx.case(signature=('j', c['pin'], c['free'], fixed, c['fixed_kinds'], c['fixed_container']),
+                 sample={'mode': 'project', 'pin': c['pin'], 'free': c['free'], 'fixed_params': typed_repr(fixed, c['fixed_kinds'], c['fixed_container'], True),
+                         'impl': {k: r.get(k) for k in ('down', 'up', 'down_up', 'up_down')}})
+        call = 'fixed_params=%s' % typed_repr(fixed, c['fixed_kinds'], c['fixed_container'], True)
+        def viol(key, msg):
+            if key in seen:
+                seen[key] += 1
+                return
+            seen[key] = 1
+            ctx.violation('%s: %s' % (call, msg), data={'mode': 'project', 'case': c, 'impl': r, 'call': call}, key=key)
+        if 'error' in r:
+            viol('_project_params:' + r['error'].split(':')[0], 'pin=%r free=%r: %s' % (c['pin'], c['free'], r['error']))
+            ctx.obligation('projection case %d (%s) completes' % (c['id'], c['tag']), False, 'correspondence', r['error'])
+            continue
+        numeric = all(v is not None for v in c['pin'])
+        if not any(isinstance(v, str) for k in ('down', 'up', 'down_up', 'up_down') for v in (r.get(k) or [])):
+            exprs.append((c['id'], '{| j_pin := [%s]; j_free := %s; j_fixed := %s; ij_down := %s; ij_up := %s; ij_down_up := %s; ij_up_down := %s |}' % (
+                '; '.join(qopt(v) for v in c['pin']), ql(c['free']), qoptlist(fixed),
+                'None' if r['down'] is None else 'Some [' + '; '.join(qopt(v) for v in r['down']) + ']',
+                ol(r['up']), ol(r['down_up']), ol(r['up_down']))))
+        # the property itself, on the real code
+        if len(c['free']) == nfree:
+            if r['down_up'] is None:
+                viol('_project_params:down(up(x))-raises', '_project_params_down(_project_params_up(%r, f), f) raises %s' % (c['free'], (r.get('errors') or {}).get('down_up')))
+            elif r['down_up'] != c['free']:
+                viol('_project_params:down(up(x))!=x', '_project_params_down(_project_params_up(x, f), f) = %r for x = %r' % (r['down_up'], c['free']))
+        if numeric and (fixed is None or len(fixed) == n):
+            want = [c['pin'][i] if (fixed is None or fixed[i] is None) else fixed[i] for i in range(n)]
+            if r['up_down'] is None:
+                viol('_project_params:up(down(p))-raises', '_project_params_up(_project_params_down(%r, f), f) raises %s' % (c['pin'], (r.get('errors') or {}).get('up_down')))
+            elif r['up_down'] != want:
+                viol('_project_params:up(down(p))!=p', '_project_params_up(_project_params_down(p, f), f) = %r for p = %r (fixed values written in: %r)' % (r['up_down'], c['pin'], want))
+            if r['down'] is not None and len(r['down']) != nfree:
+                viol('_project_params:down-length', '_project_params_down(%r, f) = %r: %d entries for %d free parameters' % (c['pin'], r['down'], len(r['down']), nfree))
+    results = ctx.coq_cases('project', HEADER, exprs, 'jcheck', 'exact', shard=ctx.pick(120, 200), kind='projection', record_err=False)
+    nbad = 0
+    byid = {c['id']: (c, r) for c, r in zip(cases, res)}
+    for cid, _ in exprs:
+        c, r = byid[cid]
+        rr = results.get(cid)
+        ok = bool(rr and rr[0])
+        ctx.obligation('projection case %d (%s)' % (cid, c['tag']), ok, 'correspondence', '' if ok else 'model != implementation')
+        if not ok:
+            nbad += 1
+            if nbad <= 2:
+                call = 'fixed_params=%s' % typed_repr(c['fixed'], c['fixed_kinds'], c['fixed_container'], True)
+                ctx.violation('_project_params_down/_up disagree with the model: %s pin=%r free=%r -> down %r up %r' % (call, c['pin'], c['free'], r.get('down'), r.get('up')),
+                              data={'mode': 'project', 'case': c, 'impl': r, 'call': call}, no_input=True, broken='projection correspondence')
+
+# ------------------------------------------------------------------------------------------------
 # perturb_params
 
 def gen_perturb(ctx):
@@ -819,7 +1364,8 @@ def gen_perturb(ctx):
             if rng.random() < 0.5:
                 uhi[rng.randrange(n)] = None
         cases.append({'id': k, 'params': params, 'fold': fold, 'us': us, 'lower': ulo, 'upper': uhi, 'kind': kind,
-                      'box': [lower, upper], 'as_array': rng.random() < 0.7})
+                      'box': [lower, upper], 'as_array': rng.random() < 0.7, 'bound_container': CONTAINERS[k % 3],
+                      'lower_kinds': None if ulo is None else [(['int', 'float', 'npfloat', 'negzero'][(k + i) % 4] if v == 0 else None) for i, v in enumerate(ulo)]})
     return cases
 
 def run_perturb(ctx, cases, seen):
@@ -885,7 +1431,12 @@ def run_perturb(ctx, cases, seen):
 # ------------------------------------------------------------------------------------------------
 
 def run(ctx):
-    ctx.rule = ('scripted: (wrapper, log_opt, 1-4 parameters, every pattern of fixed positions, bounds lists with None entries / whole-list None, '
+    ctx.rule = ('projection: _project_params_down/_up on (vector, fixed pattern) with every Python spelling of zero (0, 0.0, -0.0, numpy.float64, numpy.int64, False) '
+                'in leading / middle / trailing position, every pattern over {free, zero, negative, positive}^n for n <= 3 (4), none / all fixed, fixed_params as list / tuple / '
+                'numpy object array, lists of bounds with None entries, wrong lengths, scalar and surplus vectors; '
+                'scripted and real, on every run and for every wrapper: the same edge patterns of fixed values (zero before / between / after the free parameters, several, all; '
+                'negative; equal to a bound), bound entries equal to 0 (with a proposal / the data\'s parameter beyond them), bounds as list / tuple / numpy array; then '
+                'scripted: (wrapper, log_opt, 1-4 parameters, every pattern of fixed positions, bounds lists with None entries / whole-list None, '
                 'dyadic start inside the box, 2-7 proposals in the optimiser\'s coordinates (inside the box, on its faces, or roaming), ll_scale, multinom, '
                 'full_output, two closed-form quadratic likelihoods with an optional NaN region) from one PRNG; real: (optimiser incl. nlopt algorithm, '
                 '1-4 parameters, pattern of fixed positions, box, start, multinom, closed-form quadratic Spectrum model); perturb: (params, fold, draws, bounds of '
@@ -911,8 +1462,11 @@ def run(ctx):
                 run_real(ctx, [c], seen)
             elif mode == 'perturb':
                 run_perturb(ctx, [c], seen)
+            elif mode == 'project':
+                run_project(ctx, [c], seen)
             return
     descriptor_obligations(ctx)
+    run_project(ctx, gen_project(ctx), seen)
     run_scripted(ctx, gen_scripted(ctx), seen)
     run_real(ctx, gen_real(ctx), seen)
     probes(ctx, seen)
